@@ -122,6 +122,18 @@ def run_script(ctx, name, lines, kind="asan", impl_mode="run", want_oracle=True,
             k = next((i for i in range(min(len(a), len(b))) if a[i] != b[i]), min(len(a), len(b)))
             case = next((x.split()[2] for x in reversed(a[:k + 1]) if x.startswith("> CASE")), "?")
             res["locale_diff"] = (case, a[k] if k < len(a) else "<missing>", b[k] if k < len(b) else "<missing>")
+    if getattr(ctx, "host_locale", False) and impl_mode == "run":
+        # ... and in a host program that called setlocale(LC_ALL, "") under a UTF-8
+        # locale: nothing at all may differ
+        oc = os.path.join(ctx.dir, name + ".impl-clocale.out")
+        env3 = dict(env)
+        env3["VERIF_HOST_CLOCALE"] = "C.UTF-8"
+        rc3, err3 = run_driver(ctx.impl[kind], impl_mode, sp, oc, env=env3)
+        b = open(oc, errors="replace").read().split("\n")
+        if b != impl_lines and not res.get("locale_diff"):
+            k = next((i for i in range(min(len(impl_lines), len(b))) if impl_lines[i] != b[i]), min(len(impl_lines), len(b)))
+            case = next((x.split()[2] for x in reversed(impl_lines[:k + 1]) if x.startswith("> CASE")), "?")
+            res["locale_diff"] = (case, impl_lines[k] if k < len(impl_lines) else "<missing>", b[k] if k < len(b) else "<missing>")
     if want_model:
         rcm, errm = run_driver(ctx.model, "model", sp, om)
         if rcm != 0:
